@@ -101,6 +101,11 @@ impl Fault {
     pub fn nth(kind: Kind, n: u64, errno: i32) -> Fault {
         Fault { call_index: n, mode: FaultMode::Errno(errno), kind: Some(kind) }
     }
+    /// the first write that follows the first sync since the plan was armed fails (in a commit: the
+    /// write of the header page, or the wipe of its slot)
+    pub fn first_write_after_sync(errno: i32) -> Fault {
+        Fault { call_index: u64::MAX, mode: FaultMode::Errno(errno), kind: Some(Kind::Write) }
+    }
 }
 
 /// Callback for scheduling points: called *before* the call is executed.
@@ -238,6 +243,10 @@ fn pre(kind: Kind, fd: c_int, arg: i64) -> Decision {
         p.call_kinds.push(kind);
         if let Some(f) = p.fault {
             let hit = match f.kind {
+                Some(k) if f.call_index == u64::MAX => {
+                    let n = p.call_kinds.len();
+                    kind == k && p.call_kinds.iter().position(|x| *x == Kind::Fsync).map(|fs| !p.call_kinds[fs..n - 1].contains(&k)).unwrap_or(false)
+                }
                 Some(k) => kind == k && p.call_kinds.iter().filter(|x| **x == k).count() as u64 == f.call_index + 1,
                 None => f.call_index == idx,
             };
